@@ -129,7 +129,7 @@ fam(Family("control", {
     "e": ["nil", "false", "true", "0", ":k", "a", "x", "(t 1)", "(t 2)", "(t nil)", "(t false)",
           "(if $e $e $e)", "(if $e $e)", "(and $e $e)", "(or $e $e)", "(and $e $e $e)", "(or $e $e $e)",
           "(when $e $e)", "(unless $e $e)", "(cond $e $e $e)", "(cond $e $e $e $e)",
-          "(case $e 0 $e $e)", "(case $e nil $e :k $e)", "(not $e)", "(do $e $e)", "(if-not $e $e $e)",
+          "(case $e 0 $e $e)", "(case $e nil $e :k $e)", "(case $e nil :n :k :kk 0 :z :d)", "(not $e)", "(do $e $e)", "(if-not $e $e $e)",
           "(set x $e)", "(= nil $e)", "(not= nil $e)", "(if (= nil $e) $e $e)", "(if (not= $e nil) $e $e)",
           "(if (= nil nil) $e $e)", "(if (= nil :k) $e $e)", "(if (not= nil nil) $e $e)", "(if (not= 0 nil) $e $e)",
           "(if (= false nil) $e $e)", "(if nil $e $e)", "(if 0 $e $e)", "(if (= nil a) $e $e)", "(if (not= nil x) $e $e)"],
@@ -267,7 +267,7 @@ def _macro_rules():
             "(seq [i :range [0 3]] $I)", "(seq [i :range [0 3] :when (> i 0)] $I)", "(seq [i :in [5 6]] $I)",
             "(seq [i :in [1 2] j :in [3 4]] (+ i j))", "(do (repeat 2 (t x)) x)",
             "(try $E ([err] (tuple :c err)))", "(defer (t :d) $E)", "(with [p $E (fn [z] (t z))] $P)",
-            "(let [p $E] (default p (t 3)) p)", "(++ x)", "(+= x $E)", "(-- x)", "(-= x $E $E)", "(*= x 2)",
+            "(let [p $E] (default p (t 3)) p)", "(do (default a $E) a)", "(upscope (default b (t 3)) b)", "(++ x)", "(+= x $E)", "(-- x)", "(-= x $E $E)", "(*= x 2)",
             "(do (eachp p [7] (t p)) x)", "(do (eachk p [7 8] (t p)) x)", "(do (each p {:k 4} (t p)) x)",
             "(do (eachp p @{:k 4} (t p)) x)", "(do (each p \"ab\" (t p)) x)", "(do (each p nil (t p)) x)"]
     r = {}
